@@ -358,6 +358,41 @@ def r6(ctx, R):
                 R.undecided("C14.R6", f.short, where, loc(f, sts[0][1]), f"stores: {kinds}")
 
 
+def r7(ctx, R):
+    R.rule("C14.R7", "column-1 patterns decide about whole physical lines only: a statement is never dropped because a fragment cut off at `;` happens to start with a comment flag (c, d, *, !)", floor=1, confirmed=1)
+    from .c02 import file_class
+    from .shared import reaching_def_nodes
+
+    fc = file_class(ctx)
+    pf = ctx.m.funcs[fc.methods["parse"]]
+    F = ctx.facts(pf, interproc=False)
+    # the stack of `;` fragments: a local that is popped into the line variable
+    n = 0
+    for st in ctx.m.walk_own(pf.node):
+        if not isinstance(st, ast.If) or not st.body or not isinstance(st.body[-1], ast.Continue):
+            continue
+        for c in calls_in(ast.Expression(body=st.test)):
+            if not (isinstance(c.func, ast.Attribute) and c.func.attr == "match" and c.args and isinstance(c.args[0], ast.Name)):
+                continue
+            pat = unparse(c.func.value)
+            col1 = pat.endswith("COMMENT_LINE_MATCH") or pat.endswith("DOC_COMMENT_MATCH") or (ctx.p.fregex_ref(pf.rel, c.func.value) or "").startswith("FIXED_")
+            if not col1:
+                continue
+            n += 1
+            var = c.args[0].id
+            defs = reaching_def_nodes(ctx, pf, st, var)
+            frag = [d for d in defs if isinstance(d, ast.Assign) and isinstance(d.value, ast.Call) and isinstance(d.value.func, ast.Attribute) and d.value.func.attr in ("pop", "popleft")]
+            facts = (F.at(c) or set()) | (F.at(st) or set())
+            guarded = any(fa[0] in ("truthy",) and "get_full" in str(fa[1]) for fa in facts) or any(fa[0] == "cond" and fa[2] is True and fa[1] == "get_full" for fa in facts) or any(fa[0] in ("empty", "falsy") and "multi" in str(fa[1]) for fa in facts)
+            k = key(pf, st)[:90]
+            if frag and not guarded:
+                R.violation("C14.R7", pf.short, k, loc(pf, st), f"`{var}` can be a fragment popped from the `;` stack ({unparse(frag[0])}); in fixed form `{pat}` looks at its first character as if it were column 1, so in `      integer n;double precision x` the second statement is dropped as a comment - the free-form twin keeps it")
+            else:
+                R.ok("C14.R7", pf.short, k, loc(pf, st), "applied to physical lines only")
+    if n == 0:
+        R.ok("C14.R7", pf.short, "no skip decision rests on a column-1 pattern in the statement loop", loc(pf, pf.node))
+
+
 def run(ctx, R):
     r1(ctx, R)
     r2(ctx, R)
@@ -365,3 +400,4 @@ def run(ctx, R):
     r4(ctx, R)
     r5(ctx, R)
     r6(ctx, R)
+    r7(ctx, R)
